@@ -98,6 +98,7 @@ def stepModel (st : St Cbuf) (line : String) : St Cbuf × String :=
   let ann := (ws0.dropWhile (· ≠ "@")).drop 1
   match ws0.takeWhile (· ≠ "@") with
   | ["reset"] => ({}, "ok")
+  | ["eintr", _] => (st, "ok")      -- interrupted read()/write() calls are retried: no effect
   | ["sel", i] => ({ st with second := i = "1" }, "ok")
   | ["create", mn, mx, smeta] =>
     match mn.toInt?, mx.toInt?, smeta.toNat? with
@@ -137,6 +138,7 @@ def stepSpec (st : St Spec.RFifo) (line : String) : St Spec.RFifo × String :=
   let sz : Nat := ((ann.drop 1).head?.bind String.toNat?).getD 0
   match ops with
   | ["reset"] => ({}, "ok")
+  | ["eintr", _] => (st, "ok")      -- EINTR is not an answer of any call: the property is unaffected
   | ["sel", i] => ({ st with second := i = "1" }, "ok")
   | ["create", mn, mx, _] =>
     match mn.toInt?, mx.toInt? with
